@@ -222,6 +222,11 @@ def op4_subsets_bounded(seed, quick):
                     mode = "single" if layout == "dense" else ("runs", "split", "merge")[rng.randint(3)]
                     enc.matrix("S%d" % k, [list(m_[:, c]) for c in range(m_.shape[1])], mtype, 2, layout, lambda col, m=mode: nasenc.split_strings(col, rng, m), **kw)
                     mats.append(("s%d" % k, M, mtype))
+                if rep % 2 == 1 and kind in ("binary<", "asciiE"):
+                    # a repeated name: the matrix s0 once more at the end of the file with other values (list interface returns both, dict interface the last)
+                    Mr_ = _cast(_mat(rng, 3, 2, False, 0.9), 2)
+                    enc.matrix("S0", [list(Mr_[:, c]) for c in range(2)], 2, 2, "dense", lambda col: nasenc.split_strings(col, rng, "single"))
+                    mats.append(("s0", Mr_, 2))
                 fn = os.path.join(tmp, "s%d_%s.op4" % (rep, kind.replace("<", "le").replace(">", "be")))
                 if kind.startswith("binary"):
                     open(fn, "wb").write(enc.bytes())
@@ -241,6 +246,8 @@ def op4_subsets_bounded(seed, quick):
                     return A[m_.shape[0]:].count_nonzero() == 0 and (np.array_equal(top, m_) if kind.startswith("binary") else np.allclose(top, m_, rtol=1e-14, atol=0))
                 A = dense_of(A)
                 return A.shape == M.shape and (np.array_equal(A, M) if kind.startswith("binary") else np.allclose(A, M, rtol=1e-14, atol=0))
+            allnames = [m[0] for m in mats]
+            uniq = sorted(set(allnames), key=allnames.index)
             for rm in ((True,) if big else (False, True, None)):
                 try:
                     with warnings.catch_warnings():
@@ -263,15 +270,15 @@ def op4_subsets_bounded(seed, quick):
                             prob.append("type/size of %s: %s %s" % (nm, t, tuple(shp)))
                 if prob:
                     return ev, dict(what="op4 reader does not decode an independently encoded file that mixes per-matrix variants", kind=kind, read_mode=str(rm), problems=prob[:4])
-                for r_ in range(1, len(allnames) + 1):
-                    for sub in itertools.combinations(allnames, r_):
+                for r_ in range(1, len(uniq) + 1):
+                    for sub in itertools.combinations(uniq, r_):
                         for order in ((list(sub), list(sub)[::-1]) if len(sub) == 2 else (list(sub),)):
                             ev += 1
                             try:
                                 with warnings.catch_warnings():
                                     warnings.simplefilter("ignore")
                                     got = op4.load(fn, namelist=order, into="list", sparse=rm)
-                                    gd = op4.load(fn, namelist=order, into="dct", sparse=rm) if len(sub) == 2 else None
+                                    gd = op4.load(fn, namelist=order, into="dct", sparse=rm) if len(sub) <= 2 else None
                             except Exception as ex:
                                 tb = traceback.extract_tb(ex.__traceback__)
                                 return ev, dict(what="reading a named subset raises although the full read of the same file succeeds", kind=kind, subset=order, read_mode=str(rm),
@@ -284,7 +291,8 @@ def op4_subsets_bounded(seed, quick):
                                     same = (abs(sps.coo_matrix(G) - sps.coo_matrix(F)).count_nonzero() == 0 and G.shape == F.shape) if big else np.array_equal(dense_of(G), dense_of(F))
                                     ok = ok and same and (sps.issparse(G) == sps.issparse(F))
                             if ok and gd is not None:
-                                ok = sorted(gd.keys()) == sorted(sub) and all(np.array_equal(dense_of(gd[allnames[i]][0]), dense_of(full[1][i])) for i in want)
+                                lastidx = {allnames[i]: i for i in want}           # the dict interface keeps the LAST matrix of a repeated name, with or without a name list
+                                ok = sorted(gd.keys()) == sorted(sub) and all(np.array_equal(dense_of(gd[n_][0]), dense_of(full[1][i_])) for n_, i_ in lastidx.items())
                             if not ok:
                                 return ev, dict(what="reading a named subset differs from filtering a full read", kind=kind, subset=order, read_mode=str(rm), got_names=list(got[0]))
         return ev, None
